@@ -25,12 +25,12 @@ SPEC = {
          'sinks': {'C06_hist2': 'hist_judge'}, 'n': {'quick': 300, 'thorough': 4000}},
     ],
     'rule': 'one case = one scripted run of the real rmn.controller.ComputeReportSignatures (scripted PeerClient that owns the '
-            'Recv channel and records every Send, table-driven ed25519 / RMNCrypto stubs, RMNHome stub). Configurations: 2..6 '
+            'Recv channel and records every Send, table-driven ed25519 / RMNCrypto stubs, RMNHome stub). On-ramp addresses are real byte strings on both sides (requested: 32 bytes abi-encoded, in 1 of 8 configurations 20 / 21 / 40 / 19 / 5 / 1 / 0 bytes; the Coq term carries length and bytes). Configurations: 2..6 '
             'RMN nodes with random ids, 1..3 requested lanes, F_home 0..2 with observer counts at F, F+1, F+2, all; signer '
             'subsets with F_remote 0..2 at the same boundaries, a signer unknown to RMNHome; classes nof / dupchain / baddest '
             '/ fewobs / fewsigners. Timer classes per phase: never (1 h, fires only after Reset(0) on an invalid response) / '
             'at start (1 ns). Send failures: none / some / most. Responses drawn online from what was actually sent: correct '
-            '(own id), 23 content corruptions (no lane updates at all, nil Observation/LaneDest/LaneSource/ClosedInterval/Root, short and long roots, '
+            '(own id), 30 content corruptions (on-ramp address of ANOTHER lane that shares bytes with the requested one: empty, last byte only, last 19 bytes, first 19 bytes, the 32-byte requested form itself, 21 bytes with the same tail, one byte appended; no lane updates at all, nil Observation/LaneDest/LaneSource/ClosedInterval/Root, short and long roots, '
             'wrong dest/offramp/digest/interval/onramp, unrequested / duplicate / extra / missing lanes, conflicting and empty '
             'roots, bad signature, wrong or missing payload kind), 6 signature corruptions, duplicates, unknown ids, ids of '
             'failed sends or of the other phase, node X under the id sent to node Y (F12b; also with an empty observation, the transformAndSortObservations [0] shape), nodes that were not asked or are '
@@ -43,7 +43,7 @@ SPEC = {
             'context cancellation at a random parked point, at a select entry, or before the first select. Observable: result '
             'kind, returned (lane, root) list, signature order, every Send (kind, addressee, request id, chains), the '
             'attributed observations of the signature request (executable property: no node twice, F_home+1 distinct carriers per lane), and whether every VerifyReportSignatures call saw exactly the '
-            'report handed back. Sink C06_sweep: every single anomaly and every PAIR of anomalies (38 for observation responses: extra '
+            'report handed back. Sink C06_sweep: every single anomaly and every PAIR of anomalies (45 for observation responses: the seven on-ramp shapes above, extra '
             'lane of an unrequested / unobserved chain, duplicate / missing / no lanes, root nil / 5 / 31 / 33 bytes on the first or '
             'last lane, nil sub-message at each nullable position, interval off by one, other onramp, conflicting / empty root, '
             'wrong dest / offramp / digest, signature of another key / over other bytes / empty, wrong or missing payload, garbage, '
@@ -82,14 +82,14 @@ SPEC = {
         'liveness only: Send calls succeed, request ids do not repeat (crypto/rand 64 bit), at most F_home dishonest '
         'observers per lane, honest nodes answer requests sent to them correctly',
     ],
-    'level_text': 'PARTIAL. Proof: 18 Coq theorems over the executable two-phase model, for every configuration, every schedule '
+    'level_text': 'PARTIAL. Proof: 20 Coq theorems over the executable two-phase model, for every configuration, every schedule '
                   'parameter and every event list (induction over the list): phase A hands on only with F_home+1 DISTINCT '
                   'configured observers per lane whose signed responses carry the same root for exactly the requested lane and '
                   'interval; success only with F_remote+1 DISTINCT configured signers valid for exactly the returned report, '
                   'ascending by address, lanes exactly the supported requested ones; terminal by the CtxDone event; no panic for '
                   'any event list; liveness (enough honest timely answers => success whatever else arrives); refutation '
                   'theorems with concrete witnesses for the pre-repair code (F12a nil sub-message / short root panics, F12b '
-                  'one node counted twice, and the comparator panic that F12b made reachable); no node is sent two observation requests or has two accepted observations. Histories (induction over the list of calls on one long-lived controller, '
+                  'one node counted twice, and the comparator panic that F12b made reachable); no node is sent two observation requests or has two accepted observations; C06_lane_source_exact — a counted lane update names exactly the requested lane: requested selector and an on-ramp address byte-equal to the last 20 bytes of the requested address, hence of exactly that length (no shorter tail, no longer string with the same tail). Histories (induction over the list of calls on one long-lived controller, '
                   'every configuration sequence): C06_history_memoryless — the multi-call machine over the concatenated history equals the single-call machine '
                   'mapped over the calls, so the result of call k depends on call k\'s configuration and event list alone; C06_history_sig_threshold / '
                   'C06_history_obs_threshold — both thresholds hold for every call of every history against the configuration current at that call, witnessed by '
@@ -104,7 +104,7 @@ SPEC = {
                   'repaired code (fixes/F12.patch); until that patch is in the repository the check reports the F12 violations.',
     'modelled': 'ComputeReportSignatures, populateUpdatesPerChain and the F filter, getRmnSignedObservations (initial request '
                 'loop), sendObservationRequests, listenForRmnObservationResponses, parseResponse, '
-                'validateSignedObservationResponse (+ validateRootLengths), gotSufficientObservationResponses, selectRoots, '
+                'validateSignedObservationResponse (+ validateRootLengths; the on-ramp comparison bytes.Equal(typconv.KeepNRightBytes(requested, 20), observed) on byte strings of any length), gotSufficientObservationResponses, selectRoots, '
                 'transformAndSortObservations (order, and the index-out-of-range panic of its comparator for two observations of one node), sendReportSignatureRequest, listenForRmnReportSignatures, '
                 'validateReportSigResponse, sortAndParseReportSigs; GetRMNNodesInfo / GetF answers, chain-selectors lookup, '
                 'map orders, shuffles, request ids and Send failures are inputs of the model; the long-lived controller as a history machine over calls '
